@@ -47,6 +47,9 @@ struct WPay: VPay {
     WPay(int /*tag*/, long x): VPay(x) {}
     WPay(const WPay& o): VPay((user_call(FID_COPY), static_cast<const VPay&>(o))) {}
     WPay(WPay&& o) noexcept: VPay(static_cast<VPay&&>(o)) {}
+    // `T copy{other};` picks this one instead of the copy constructor: K_FAULT 0 13 and the sentinel value -13
+    // (neither the drivers nor the unmodified library list-initialise a payload from a payload)
+    inline WPay(std::initializer_list<WPay> l);
     // construction from the caller's object (not used by the unmodified library; lets the driver keep compiling
     // when a change builds a temporary T from the argument of store / operator=)
     explicit WPay(const WSrc& s): VPay(s.v) {}
@@ -82,6 +85,8 @@ struct WPay: VPay {
         return *this;
     }
 };
+
+inline WPay::WPay(std::initializer_list<WPay>): VPay(-13) { fault(nullptr, 13); }
 
 // TPay: a trivially copyable payload whose equality is NOT bitwise and NOT reflexive: operator== compares v only
 // (the driver varies tag), and the value TPAY_NAN is unequal to everything, itself included (like a NaN).
